@@ -8,6 +8,7 @@ import (
 	"sort"
 	"strconv"
 	"strings"
+	"time"
 
 	"github.com/tdewolff/parse/v2"
 	"github.com/tdewolff/parse/v2/buffer"
@@ -338,9 +339,19 @@ func RunC20(ctx *core.Ctx) *core.Violation {
 	}
 	if fresh {
 		i := t.Draw(n)
-		cmd := exec.Command(ctx.Env["self"], "solo", strconv.Itoa(ins[i].kind), strconv.Itoa(ins[i].opt), hex.EncodeToString(ins[i].data))
-		cmd.Env = append(cmd.Environ(), "GORACE=halt_on_error=1 exitcode=66 atexit_sleep_ms=0")
-		out, err := cmd.Output()
+		var out []byte
+		var err error
+		for attempt := 0; attempt < 4; attempt++ {
+			cmd := exec.Command(ctx.Env["self"], "solo", strconv.Itoa(ins[i].kind), strconv.Itoa(ins[i].opt), hex.EncodeToString(ins[i].data))
+			cmd.Env = append(cmd.Environ(), "GORACE=halt_on_error=1 exitcode=66 atexit_sleep_ms=0")
+			if out, err = cmd.Output(); err == nil {
+				break
+			}
+			if _, isExit := err.(*exec.ExitError); isExit {
+				break // the child ran and failed: not a transient spawn problem
+			}
+			time.Sleep(time.Duration(200*(attempt+1)) * time.Millisecond)
+		}
 		if err != nil {
 			panic(fmt.Sprintf("harness: fresh-process execution failed: %v", err))
 		}
